@@ -13,9 +13,9 @@ CONSTANTS
   MIds = {1, 2, 3}
   MaxFiles = 3
   MaxMerges = 2
-  HPats = {"p0", "p3", "mix"}
+  HPats = {"p0", "p3", "u"}
   TPats = {"a0", "d2"}
-  HPatsLast = {"p3"}
-  TPatsLast = {"a0", "d2"}
+  HPatsLast = {"p3", "mix"}
+  TPatsLast = {"d2"}
   EmitK = 3
 INVARIANTS Check
